@@ -111,7 +111,7 @@ class OpsMixin:
     def _truth_ref(self, v):
         a = Value.a(v)
         c = z3.Select(self.field('cls'), a)
-        return z3.If(z3.Or(c == 1, c == 4), z3.Select(self.field('list.len'), a) != 0,
+        return z3.If(z3.Or(c == 1, c == 4), self.lget(a, 'len') != 0,
                      z3.If(z3.Or(c == 2, c == 3), z3.Select(self.field('dict.n'), a) != 0, z3.BoolVal(True)))
 
     def as_int(self, v):
@@ -355,7 +355,12 @@ class OpsMixin:
         ka, x = self.numeric(a, node)
         kb, y = self.numeric(b, node)
         if ka == 'inf' or kb == 'inf':
-            raise OutOfSubset('arithmetic on inf: ' + self.snippet(node))
+            if self.spec_mode:
+                raise OutOfSubset('arithmetic on inf: ' + self.snippet(node))
+            # not modelled; the path is usually an artefact of an inconclusive feasibility check: demand a proof
+            # that it is infeasible instead of giving up on the whole function (never silently dropped)
+            self.oblige(z3.BoolVal(False), 'subset', 'unmodelled:inf-arithmetic@' + self.snippet(node), node)
+            raise PathEnd()
         if isinstance(op, ast.Div):
             raise OutOfSubset('true division')
         if ka == 'int' and kb == 'int':
@@ -482,6 +487,16 @@ class OpsMixin:
             if self.spec_mode:
                 return z3.BoolVal(False)
             raise PyExc('TypeError', 'ordering comparison with None: ' + self.snippet(node), implicit='type')
+        if self.spec_mode and ((ta is None and self.tagcache.get(a.sexpr()) is None)
+                               or (tb is None and self.tagcache.get(b.sexpr()) is None)):
+            # specification comparison of values whose int/float tag is not known: compare as reals (exact)
+            known_int = lambda v, t: t == 'VInt' or self.tagcache.get(v.sexpr()) == 'VInt'
+            if not (known_int(a, ta) and known_int(b, tb)):
+                ia = z3.And(Value.is_VInt(a), Value.is_VInt(b))
+                x, y = self._toreal(a), self._toreal(b)
+                xi, yi = Value.i(a), Value.i(b)
+                return {ast.Lt: z3.If(ia, xi < yi, x < y), ast.LtE: z3.If(ia, xi <= yi, x <= y),
+                        ast.Gt: z3.If(ia, xi > yi, x > y), ast.GtE: z3.If(ia, xi >= yi, x >= y)}[type(op)]
         ka, x = self.numeric(a, node)
         kb, y = self.numeric(b, node)
         if ka == 'inf' or kb == 'inf':
